@@ -145,6 +145,18 @@ bool vp_combinators(int x, int* p, vp_S sv, char const* str)
 }
 
 
+// C18 structural printing: pairs, tuples, collections (element-wise), and a user-provided printer<T>
+struct vp_UP { int v; };
+} // namespace vp_trompeloeil
+namespace trompeloeil {
+template <> struct printer<vp_trompeloeil::vp_UP> { static void print(std::ostream& os, vp_trompeloeil::vp_UP const& p); };
+}
+namespace vp_trompeloeil {
+void vp_print_structural(std::ostream& os, std::pair<int, char const*> const& pr, std::tuple<int, int*, char const*> const& tp, int (&arr)[3], std::array<char const*, 2> const& sa, vp_UP const& up, std::pair<vp_UP, int> const& nested)
+{
+  trompeloeil::print(os, pr); trompeloeil::print(os, tp); trompeloeil::print(os, arr); trompeloeil::print(os, sa); trompeloeil::print(os, up); trompeloeil::print(os, nested);
+}
+
 // the RETURN handler of the world harnesses: the real return_handler_t<Sig, F>::call (trace_return) around a functor that
 // stands for the user's RETURN / THROW expression (declared only: the harness gives it its contract)
 struct vp_retfn { int operator()(trompeloeil::call_params_type_t<int(int)>& p) const; };
